@@ -36,7 +36,7 @@ class _ScanWalker(kwalk.Walker):
         if q == self.body.fn.q or q in self.frames:
             return None
         g = self.F.fn_opt(q)
-        if g is None or g.body is None or len(g.body.blocks) > 120:
+        if g is None or g.body is None or len(g.body.blocks) > 400:
             return None
         return g
 
